@@ -67,6 +67,12 @@ ASSUMPTIONS = [
     'UNQUOTED and must round-trip (F32); string cells are drawn from every ASCII punctuation character incl. backslash and apostrophe, tabs, '
     'control characters, Latin-1/BMP/astral text (NFC and NFD, BOM, NBSP, zero-width); malformed hand-written cells (stray quotes, text after a '
     'closing quote, unterminated quote) are typed as csv.reader splits them',
+    'table sizes: the theorems hold for tables of any size; the streams data / host / reuse / csv sample tables of at most 12 rows, the streams `scale` '
+    'and `csvscale` (and the scale part of csvtext-roundtrip) walk the row-count axis 0, 1, 2, 9, 10, 11, 12, 16, 17, 64, 100, 128, 129, 300 for every '
+    'function family with the number of distinct keys, the largest group, dataTop counts and the row of the first non-null cell of a CSV column on the '
+    'same axis; a size-dependent behaviour whose threshold lies above 300 rows is not sampled',
+    'dataParseCSV is modelled as a FUNCTION of its text arguments: that the real function has no memory (the same text read again after an in-place '
+    'update of an earlier result, results of separate reads sharing rows) is checked on the implementation only, by the stream `csvhist`',
     'value_parse_number = C13 model NumText.numberParseFloat (exact rational, the double is its correct rounding: the harness rounds); '
     'value_parse_datetime = C16 model Datetime.isoParse over a fixed-offset zone (the csv stream runs under TZ=UTC, thorough also Etc/GMT+5, Etc/GMT-3)',
 ]
@@ -1035,8 +1041,10 @@ JOIN_EXPRS = ['a', 'a', 'a', 'k', 'b', 'a2', 'a + 0', "'' + a", 'if(a, a, b)', '
 DESC_FLAGS = [None, True, False, I(1), I(0), '', 'x', F(0.0), F(1.0), L(), L(I(0)), O(), O(['k', I(1)])]
 
 
-def gen_rows(rng, fields, keypool, nmax=12, measure_pool=None, key_fields=None):
-    n = rng.choice([0, 1, 2, 3, 4, 5, 6, 8, 10, 12]) if nmax >= 12 else rng.randint(0, nmax)
+def gen_rows(rng, fields, keypool, nmax=12, measure_pool=None, key_fields=None, n=None):
+    """n: the exact row count (SCALE axis); default: drawn from 0..nmax"""
+    if n is None:
+        n = rng.choice([0, 1, 2, 3, 4, 5, 6, 8, 10, 12]) if nmax >= 12 else rng.randint(0, nmax)
     key_fields = key_fields if key_fields is not None else fields[:max(1, len(fields) - 1)]
     rows = []
     for _ in range(n):
@@ -1184,18 +1192,18 @@ def load_corpus():
 # Stream `data`
 # ---------------------------------------------------------------------------------------------------------------------
 
-def check_data_case(ctx, st, case, resp):
+def check_data_case(ctx, st, case, resp, stream='data', tags=None):
     """run the implementation on one case, compare with the model answer, run the oracles"""
     run = run_case_with_ids(case)
     model = model_view(case, resp) if resp is not None else None
-    st.case(case, nontrivial=nontrivial(case, run), tags=case_tags(case, run, model))
+    st.case(case, nontrivial=nontrivial(case, run), tags=case_tags(case, run, model) + list(tags or []))
     if model is not None and 'bad' in model:
-        ctx.disagree('data', case, 'request', model, 'driver rejected the request')
+        ctx.disagree(stream, case, 'request', model, 'driver rejected the request')
     elif model is not None and not model.get('unmodelled'):
-        ctx.compare('data', case, impl_view(case, run, model), model)
+        ctx.compare(stream, case, impl_view(case, run, model), model)
         # the spec layer must agree with the mirror (theorems filter_spec/top_spec/aggregate_spec, re-checked on the wire)
         if 'spec' in resp and resp['spec'] != (resp.get('model') if case['op'] == 'aggregate' else resp.get('rows')):
-            ctx.disagree('data', case, 'mirror', resp, 'mirror and spec layer differ in the driver')
+            ctx.disagree(stream, case, 'mirror', resp, 'mirror and spec layer differ in the driver')
     for oracle, want, got in oracles(case, run):
         ctx.witness(oracle, case, want, got)
 
@@ -1616,7 +1624,7 @@ def split_cells(case):
     return header, recs
 
 
-def check_csv_case(ctx, st, case, resp, header, recs):
+def check_csv_case(ctx, st, case, resp, header, recs, stream='csv', tags=None):
     library = fw.impl()['library']
     off = case['off']
     try:
@@ -1629,7 +1637,7 @@ def check_csv_case(ctx, st, case, resp, header, recs):
     except Exception as exc:  # pylint: disable=broad-except
         res = None
         impl = {'exception': type(exc).__name__ + ': ' + str(exc)}
-    tags = ['cols%d' % len(case['header']), 'parsed' if res is not None else 'failed'] + sorted({(t or {'kind': 'raw'})['kind'] for t in case['typed']})
+    tags = list(tags or []) + ['cols%d' % len(case['header']), 'parsed' if res is not None else 'failed'] + sorted({(t or {'kind': 'raw'})['kind'] for t in case['typed']})
     alltext = ''.join(c for c in case['chunks'] if c is not None)
     tags += [name for name, chars in (('backslash', '\\'), ('quote', '"'), ('apostrophe', "'"), ('tab', '\t'), ('linesep', LINESEPS), ('control', '\x00\x01\x08\x1b\x1f\x7f'))
              if any(ch in alltext for ch in chars)]
@@ -1652,7 +1660,7 @@ def check_csv_case(ctx, st, case, resp, header, recs):
         model = dict(resp)
         if 'rows' in model:
             model['rows'] = round_model_nums(model['rows'])
-        ctx.compare('csv', case['chunks'], impl, model)
+        ctx.compare(stream, case['chunks'], impl, model)
     # oracle 1: nothing but the documented TypeError escapes, and a date-like invalid cell never aborts the parse
     if 'exception' in impl:
         ctx.witness('csv-parse-does-not-abort', case['chunks'], 'table or field TypeError', impl['exception'])
@@ -2308,9 +2316,472 @@ def stream_reuse(ctx):
         with_zone(tzname, body)
 
 
+# ---------------------------------------------------------------------------------------------------------------------
+# Stream `scale`: the row-count axis.  Every data function family (filter, calculated field, sort, top, aggregate, join) and the CSV round
+# trip on tables of 0, 1, 2, 9, 10, 11, 12, 16, 17, 64, 100, 128, 129, 300 rows (geometric, both sides of the usual thresholds 10 / 16 / 64 /
+# 100 / 128): whatever an implementation does "for the first N rows" / "from N rows on" (sampling, chunking, another algorithm, an index built
+# for large inputs only, a cap) lies on that axis.  The other sizes follow it: number of distinct keys / categories, dataTop counts, group
+# sizes, right-table sizes, the position of the first non-null cell of a CSV column, the number of colliding field names of a join, the number
+# of sort keys and of measures.
+# ---------------------------------------------------------------------------------------------------------------------
+
+SCALE = [0, 1, 2, 9, 10, 11, 12, 16, 17, 64, 100, 128, 129, 300]
+SCALE_OPS = ['filter', 'calc', 'sort', 'top', 'aggregate', 'join']
+SCALE_FILTER_EXPRS = ['a', 'a == 1', 'a != null', 'a % 2', 'a < 10', 'a >= 100', 'a == b', '!a', 'b', 'a || b', 'true', 'null', 'a < vv', 'b > 1',
+                      "a != 'k1'", 'a == vv']
+SCALE_CALC_EXPRS = ['a', 'a + b', 'a * 2', 'if(a, 1, 0)', 'vv', 'null', "'' + a", 'a == b', 'arrayNew(a, b)', 'b - 1', '1', 'a % 3']
+SCALE_JOIN_EXPRS = ['a', 'a', 'a', 'k', 'b', 'a + 0', "'' + a", 'if(a, a, b)', 'vv']
+
+
+def scale_keypool(rng, n, min_card=1, groups='uniform'):
+    """key values for a table of n rows: a few values of one KEY_GROUP (1 / 1.0 / '1' / true near misses, nulls, JSON punctuation) plus a range
+    of `card` distinct keys - ints, quarter floats, strings, or ints mixed with their float twins (the same key) and their decimal strings
+    (another key); card is drawn from the scale axis (1 .. n distinct keys: one big group ... every row its own group).  groups: 'uniform',
+    'skew' (one key takes about two thirds of the rows: the size of the largest group follows the row count) or 'one' (a single key value)"""
+    group = rng.choice(KEY_GROUPS)
+    base = rng.sample(group, min(len(group), rng.randint(2, 4)))
+    if groups == 'one':
+        return [rng.choice([I(1), 'k1', F(0.5), rng.choice(base)])]
+    cards = [c for c in SCALE if min_card <= c <= max(1, n, min_card)] or [min_card]
+    card = rng.choice(cards)
+    style = rng.choice(['int', 'int', 'mixed', 'str', 'float'])
+    wide = []
+    for i in range(card):
+        if style == 'int':
+            wide.append(I(i))
+        elif style == 'float':
+            wide.append(F(i / 4))
+        elif style == 'str':
+            wide.append('k%d' % i)
+        else:
+            wide.append(rng.choice([I(i), I(i), F(float(i)), str(i), 'k%d' % i]))
+    pool = base + wide
+    if groups == 'skew':
+        pool = pool + [wide[0]] * (2 * len(pool))
+    return pool
+
+
+def gen_scale_case(rng, op, n, n_right=None):
+    """one case of the data stream's shape with exactly n rows (join: n left rows, n_right right rows)"""
+    fields = list(rng.choice(FIELD_POOLS))
+    rng.shuffle(fields)
+    fields = fields[:rng.randint(1, 5)]
+    if 'a' not in fields and op in ('filter', 'calc', 'join') and rng.random() < 0.8:
+        fields[0] = 'a'
+    case = {'op': op, 'via': rng.choice(['direct', 'script'])}
+    if op == 'join':
+        # bound the joined table: about left x right / distinct keys rows
+        keypool = scale_keypool(rng, max(n, n_right), min_card=max(1, -(-n * n_right // 1500)))
+    else:
+        # dataTop / dataAggregate: the size of the largest group is on the axis too (one group of all rows, one dominant key, or uniform keys)
+        groups = rng.choice(['one', 'skew', 'uniform']) if op in ('top', 'aggregate') else 'uniform'
+        keypool = scale_keypool(rng, n, groups=groups)
+    if op == 'filter':
+        case['rows'] = gen_rows(rng, fields, keypool, n=n)
+        case['expr'] = rng.choice(SCALE_FILTER_EXPRS) if rng.random() < 0.95 else rng.choice(RAISING_EXPRS)
+        if 'vv' in case['expr'] or rng.random() < 0.1:
+            case['vars'] = O(['vv', rng.choice(keypool)])
+    elif op == 'calc':
+        case['rows'] = gen_rows(rng, fields, keypool, n=n)
+        case['expr'] = rng.choice(SCALE_CALC_EXPRS) if rng.random() < 0.95 else rng.choice(RAISING_EXPRS)
+        case['field'] = rng.choice(fields + ['z', 'a', 'a2', 'new field'])
+        if 'vv' in case['expr'] or rng.random() < 0.1:
+            case['vars'] = O(['vv', rng.choice(keypool)])
+    elif op == 'sort':
+        case['rows'] = gen_rows(rng, fields, keypool, n=n)
+        sorts = []
+        for _ in range(rng.choice([1, 1, 2, 2, 3, 3, 9, 10, 11, 16, 17])):
+            f = rng.choice(fields + ['missing'])
+            flag = rng.choice(DESC_FLAGS)
+            sorts.append(L(f) if flag is None and rng.random() < 0.7 else L(f, flag))
+        case['sorts'] = sorts
+    elif op == 'top':
+        case['rows'] = gen_rows(rng, fields, keypool, n=n)
+        # the count: from the axis, or next to the row count / half of it (cuts the largest group just below its size)
+        count = rng.choice([c for c in SCALE if c >= 1]) if rng.random() < 0.5 else max(1, rng.choice([n - 1, n, n + 1, n // 2 + 1, (2 * n) // 3]))
+        r = rng.random()
+        case['count'] = F(count) if r < 0.7 else (I(count) if r < 0.95 else rng.choice([F(0), F(1.5), I(0), F(-1)]))
+        case['fields'] = None if rng.random() < (0.6 if groups == 'one' else 0.2) else [rng.choice(fields + ['missing']) for _ in range(rng.choice([1, 1, 2, 3]))]
+    elif op == 'aggregate':
+        nkeys = rng.randint(0, max(0, len(fields) - 1))
+        key_fields = fields[:nkeys]
+        measure_fields = fields[nkeys:] or ['m']
+        kind = rng.random()
+        mpool = MEASURE_CLEAN if kind < 0.65 else (MEASURE_STR if kind < 0.75 else (MEASURE_DT if kind < 0.85 else MEASURE_CLEAN + rng.sample(MEASURE_DIRTY, 2)))
+        case['rows'] = gen_rows(rng, fields, keypool, n=n, measure_pool=mpool, key_fields=key_fields)
+        case['categories'] = (None if not key_fields or rng.random() < (0.6 if groups == 'one' else 0.15)
+                              else [rng.choice(key_fields + ['missing']) for _ in range(rng.choice([1, 1, 2]))])
+        measures = []
+        # the number of measures is on the axis too (distinct output names m1, m2, ...)
+        for i in range(rng.choice([1, 1, 2, 3, 3, 9, 10, 11, 16, 17])):
+            measures.append({'field': rng.choice(measure_fields + ['missing']), 'function': rng.choice(FUNCTIONS), 'name': 'm%d' % (i + 1)})
+        if rng.random() < 0.3:
+            del measures[0]['name']
+        case['measures'] = measures
+    else:
+        rfields = list(rng.choice(FIELD_POOLS))
+        rng.shuffle(rfields)
+        rfields = rfields[:rng.randint(1, 5)]
+        if rng.random() < 0.8 and 'a' not in rfields:
+            rfields[0] = 'a'
+        case['rows'] = gen_rows(rng, fields, keypool, n=n, key_fields=fields)
+        case['right'] = gen_rows(rng, rfields, keypool, n=n_right, key_fields=rfields)
+        case['expr'] = rng.choice(SCALE_JOIN_EXPRS) if rng.random() < 0.97 else rng.choice(RAISING_EXPRS)
+        case['rexpr'] = None if rng.random() < 0.7 else rng.choice(SCALE_JOIN_EXPRS)
+        case['isLeftJoin'] = rng.random() < 0.5
+        if 'vv' in case['expr'] or 'vv' in (case['rexpr'] or '') or rng.random() < 0.1:
+            case['vars'] = O(['vv', rng.choice(keypool)])
+    return case
+
+
+def gen_wide_join_case(rng, k):
+    """the field-count axis of dataJoin's renaming: the left table has a, a2, ..., a<k> (sometimes with one gap, sometimes continued on the right
+    side), the right table has a (and a2, b): the right a must become the first name a<j> that neither side uses"""
+    lnames = ['a'] + ['a%d' % i for i in range(2, k + 1)]
+    if k > 2 and rng.random() < 0.4:
+        lnames.remove('a%d' % rng.randint(2, k))
+    rnames = ['a'] + rng.sample(['a2', 'b', 'a%d' % (k + 1), 'a%d' % (k + 2), 'a%d' % max(2, k // 2)], rng.randint(0, 3))
+    rnames = list(dict.fromkeys(rnames))
+    keys = [I(1), I(2), F(1.0), '1', None]
+
+    def table(names, m):
+        rows = []
+        for _ in range(m):
+            rows.append([[f, rng.choice(keys)] for f in names if f == 'a' or rng.random() < 0.9])
+        return rows
+    return {'op': 'join', 'via': rng.choice(['direct', 'script']), 'rows': table(lnames, rng.randint(1, 3)), 'right': table(rnames, rng.randint(1, 3)),
+            'expr': 'a', 'rexpr': None, 'isLeftJoin': rng.random() < 0.5}
+
+
+def scale_sizes(case):
+    return (len(case['rows']), len(case['right'])) if case['op'] == 'join' else (len(case['rows']),)
+
+
+def shrink_scale_case(case, oracle, runner=None):
+    """the failing case cut to the shortest prefix of its rows (join: of either table) on which the same oracle still fails: shows the threshold"""
+    runner = runner or (lambda c: [name for name, _, _ in oracles(c, run_case(c))])
+    for key in ('rows', 'right'):
+        if key not in case:
+            continue
+        full = case[key]
+        for m in sorted(set(list(range(0, min(len(full), 20))) + [s for s in SCALE + [65, 101, 256] if s < len(full)])):
+            cut = dict(case)
+            cut[key] = full[:m]
+            try:
+                if oracle in runner(cut):
+                    case = cut
+                    break
+            except Exception:  # pylint: disable=broad-except
+                break
+    return case
+
+
+def scale_cases(ctx, rng):
+    """[(family tag, case)]: per family and per size of the axis `reps` cases (joins: the size on the left with a small right table, on the
+    right with a small left table, and on both sides)"""
+    reps = ctx.scale(4, 24)
+    out = []
+    small = [0, 1, 2, 5, 12]
+    for n in SCALE:
+        for op in SCALE_OPS:
+            for r in range(reps * 3 if n <= 17 else reps):
+                if op != 'join':
+                    out.append((op, gen_scale_case(rng, op, n)))
+                    continue
+                shape = r % 3
+                if shape == 0:
+                    out.append((op, gen_scale_case(rng, op, n, rng.choice(small))))
+                elif shape == 1:
+                    out.append((op, gen_scale_case(rng, op, rng.choice(small), n)))
+                else:
+                    out.append((op, gen_scale_case(rng, op, n, rng.choice([m for m in SCALE if m <= n] if n <= 129 else [n]))))
+        if n >= 64:
+            out.append(('join', gen_scale_case(rng, 'join', n, n)))
+    for k in [2, 3, 9, 10, 11, 16, 17, 64, 100, 128]:
+        for _ in range(ctx.scale(2, 10)):
+            out.append(('join-wide', gen_wide_join_case(rng, k)))
+    return out
+
+
+def stream_scale(ctx):
+    st = ctx.stream('scale', 'the ROW-COUNT axis: tables of exactly 0, 1, 2, 9, 10, 11, 12, 16, 17, 64, 100, 128, 129 and 300 rows (x <= 5 fields) through dataFilter / '
+                             'dataCalculatedField / dataSort (1-17 sort keys) / dataTop (counts 1 ... 300 from the same axis, float and int) / dataAggregate '
+                             '(all six functions, 1-17 measures) / dataJoin (the size on the left, on the right, on both sides), via the library function or a '
+                             'script; the number of distinct key values is drawn from the same axis (one big group ... every row its own key; ints, their float '
+                             "twins = the same key, their decimal strings = another key, plus the data stream's mixed-type key groups); joins of tables whose left "
+                             'side already has a, a2, ..., a<k> for k = 2 ... 128 (first free name). Implementation vs mirror vs spec layer + the reference oracles '
+                             'of the data stream (written from the statement: no size bound in them); a failing case is cut to the shortest failing prefix; '
+                             'non-trivial = at least 2 rows (join: and a right row)')
+    rng = ctx.rng('scale')
+    tagged = scale_cases(ctx, rng)
+    cases = [c for _, c in tagged]
+    resps = ctx.driver.batch([case_request(c) for c in cases])
+    for (family, case), resp in zip(tagged, resps):
+        before = len(ctx.witnesses)
+        check_data_case(ctx, st, case, resp, stream='scale', tags=[family] + ['n%d' % m for m in scale_sizes(case)])
+        if before < len(ctx.witnesses) <= 12:
+            # report the threshold: the shortest prefix of the table on which the oracle still fails
+            w = ctx.witnesses[before]
+            small = shrink_scale_case(case, w['oracle'])
+            if small is not case:
+                bad = [b for b in oracles(small, run_case(small)) if b[0] == w['oracle']]
+                if bad:
+                    w.update({'input': small, 'expected': bad[0][1], 'actual': bad[0][2], 'cut_from_rows': list(scale_sizes(case))})
+
+
+# ---------------------------------------------------------------------------------------------------------------------
+# Stream `csvscale`: the CSV round trip on the row-count axis, with the POSITION OF THE FIRST NON-NULL CELL of a column on the same axis
+# ---------------------------------------------------------------------------------------------------------------------
+
+def gen_csv_scale_case(rng, off, n, dense=False):
+    """a typed table of n rows x 1-4 columns written by the harness writer.  Column shapes: dense (20% nulls), late (null - empty cell, the text
+    null or, for the last column, a missing cell of a short record - in every row before row `start`, start drawn from the axis: the type of the
+    column shows in row start+1 only), sparse (90% nulls), early (values in the leading rows only)"""
+    ncols = rng.randint(1, 4)
+    header = rng.sample(HEADERS, ncols)
+    kinds = [rng.choice(['number', 'boolean', 'datetime', 'string', 'number', 'datetime']) for _ in range(ncols)]
+    starts = sorted({s for s in SCALE if s < n} | ({n - 1} if n else set()))
+    cols, typed, shapes = [], [], []
+    short_before = 0
+    for c, kind in enumerate(kinds):
+        vals = gen_typed_column(rng, kind, n)
+        shape = 'dense' if dense or not n else rng.choice(['dense', 'dense', 'late', 'late', 'late', 'sparse', 'early'])
+        start = 0
+        if shape == 'late':
+            start = rng.choice(starts if rng.random() < 0.5 else starts[-4:])         # half of them near the end of the table
+            vals[:start] = [None] * start
+            while vals[start] is None:
+                vals[start] = gen_typed_column(rng, kind, 1)[0]
+        elif shape == 'sparse':
+            vals = [v if rng.random() < 0.12 else None for v in vals]
+        elif shape == 'early':
+            stop = rng.choice(starts)
+            vals[stop + 1:] = [None] * (n - stop - 1)
+        null_text = 'null' if ncols == 1 or kind == 'string' or all(v is None for v in vals) or rng.random() < 0.5 else ''
+        date_only = kind == 'datetime' and rng.random() < 0.3
+        texts = []
+        for v in vals:
+            if isinstance(v, datetime.datetime) and date_only and (v.hour, v.minute, v.second, v.microsecond) != (0, 0, 0, 0):
+                v = datetime.datetime(v.year, v.month, v.day)
+                vals[len(texts)] = v
+            texts.append(cell_text(v, null_text, date_only))
+        if shape == 'late' and c == ncols - 1 and ncols > 1 and start and rng.random() < 0.3:
+            short_before = start            # the leading records lack their last cell
+        cols.append(texts)
+        typed.append({'kind': kind, 'values': [spec_of(v) for v in vals]})
+        shapes.append(shape if shape != 'late' else 'late%d' % start)
+    records = [[cols[c][r] for c in range(ncols)] for r in range(n)]
+    for r in range(short_before):
+        records[r] = records[r][:-1]
+    eol = rng.choice(['\n', '\n', '\r\n', '\r'])
+    style = 'all' if rng.random() < 0.15 else 'minimal'
+    text = write_csv(header, records, eol, style, quote_lone_empty=kinds == ['string'])
+    text += eol if rng.random() < 0.5 else ''
+    chunks = [text]
+    if rng.random() < 0.3:
+        phys = ref_split_lines(text)            # a chunk argument per physical line, as a script that builds the text line by line does
+        if len(phys) > 1:
+            chunks = phys if rng.random() < 0.5 else [phys[0], ''.join(phys[1:])]
+    return {'header': header, 'records': records, 'typed': typed, 'chunks': chunks, 'off': off, 'short': bool(short_before), 'malformed': False,
+            'via': 'script' if rng.random() < 0.1 else 'direct', 'linecut': len(chunks) > 1, 'hstr': False, 'shapes': shapes}
+
+
+def stream_csvscale(ctx):
+    st = ctx.stream('csvscale', 'the CSV round trip on the ROW-COUNT axis: typed tables of exactly 0, 1, 2, 9, 10, 11, 12, 16, 17, 64, 100, 128, 129 and 300 records x 1-4 '
+                                'columns (numbers, booleans, datetimes / dates, generated strings) written by the harness writer; per column the position of the '
+                                'first non-null cell is drawn from the same axis (null = empty cell, the text null, or a missing last cell of a short record, in '
+                                'every row before it: the column shows its type late), or the column is sparse (90% nulls) or has values in the leading rows '
+                                'only; LF / CRLF / CR, one text or a chunk per line; dataParseCSV vs model (split cells) vs reference typing + round-trip '
+                                'oracles of the csv stream; non-trivial = at least 2 records')
+    reps = ctx.scale(12, 80)
+
+    def body():
+        off = local_offset()
+        rng = ctx.rng('csvscale')
+        cases = [gen_csv_scale_case(rng, off, n) for n in SCALE for _ in range(reps)]
+        split = [split_cells(c) for c in cases]
+        reqs, idx = [], []
+        for i, (c, (header, recs)) in enumerate(zip(cases, split)):
+            if header is not None and len(set(header)) == len(header) and all(len(r) == len(header) for r in recs):
+                reqs.append({'op': 'csv', 'header': header, 'records': recs, 'off': off})
+                idx.append(i)
+        resps = dict(zip(idx, ctx.driver.batch(reqs)))
+        for i, (c, (header, recs)) in enumerate(zip(cases, split)):
+            check_csv_case(ctx, st, c, resps.get(i), header, recs, stream='csvscale',
+                           tags=['n%d' % len(c['records'])] + sorted({'col-' + re.sub(r'\d+', '', s) for s in c['shapes']})
+                           + sorted({'first-value-row-%s' % s[4:] for s in c['shapes'] if s.startswith('late')}))
+    with_zone('UTC', body)
+
+
+# ---------------------------------------------------------------------------------------------------------------------
+# Stream `csvhist`: histories around dataParseCSV.  The same text (the same str objects, equal copies, the same lines cut into other chunks,
+# str-subclass copies, via a script) is read several times in one process; in between the rows / the array of an earlier result are updated in
+# place (dataCalculatedField, objectSet, objectDelete, arrayPush / arrayPop / arraySet, dataSort), other texts with the same header are read.
+# Reading a written table gives the written typed values EVERY time: every result that was not itself updated must equal the reference typing
+# of its text - when it is returned and after every later step (results of separate reads share neither rows nor the array).
+# ---------------------------------------------------------------------------------------------------------------------
+
+HIST_SET_VALUES = [I(7), 'changed', None, True, F(0.5), D(2001, 2, 3), L(I(1))]
+HIST_CALC = [('z', '1'), ('z', 'a'), (None, "'x'"), (None, 'null'), (None, '1 + 1'), ('new field', 'true')]
+
+
+def chunks_variant(chunks, how):
+    """another way to hand over the same physical lines"""
+    if how == 'copy':
+        return [c if c is None else ''.join(list(c)) for c in chunks]
+    if how == 'lines':
+        return [ln for c in chunks if c is not None for ln in ref_split_lines(c)] or list(chunks)
+    if how == 'whole':
+        parts = [c for c in chunks if c]
+        return [''.join(c if c[-1] in '\r\n' or i + 1 == len(parts) else c + '\n' for i, c in enumerate(parts))] if parts else list(chunks)
+    return list(chunks)
+
+
+def gen_csv_history(rng, off):
+    n = rng.choice([1, 2, 3, 3, 5, 12, 17]) if rng.random() < 0.96 else rng.choice([64, 100, 129])        # mostly small: the history is the axis here
+    base = gen_csv_scale_case(rng, off, n, dense=rng.random() < 0.7)
+    other = gen_csv_scale_case(rng, off, rng.choice([1, 2, n]), dense=True)
+    texts = [base['chunks'], chunks_variant(base['chunks'], 'whole')[:1] if rng.random() < 0.5 else other['chunks']]
+    # a text with the same header and other values: the first text with its data lines rotated
+    lines = chunks_variant(base['chunks'], 'lines')
+    if len(lines) > 2 and all('"' not in ln for ln in lines):
+        if lines[-1][-1] not in '\r\n':
+            lines[-1] += '\n'
+        texts.append([lines[0]] + lines[2:] + lines[1:2])
+    fields = list(base['header'])
+    steps = [{'do': 'parse', 'text': 0, 'how': 'same', 'via': 'direct'}]
+    nparse = 1
+    for _ in range(rng.randint(2, 6)):
+        r = rng.random()
+        on = rng.randrange(nparse)
+        via = rng.choice(['direct', 'direct', 'script'])
+        if r < 0.4:
+            steps.append({'do': 'parse', 'text': 0 if rng.random() < 0.75 else rng.randrange(len(texts)),
+                          'how': rng.choice(['same', 'same', 'copy', 'lines', 'whole', 'hstr']), 'via': rng.choice(['direct', 'direct', 'script', 'expr'])})
+            nparse += 1
+        elif r < 0.6:
+            f, e = rng.choice(HIST_CALC)
+            steps.append({'do': 'calc', 'on': on, 'field': f if f is not None else rng.choice(fields), 'expr': e, 'via': via})
+        elif r < 0.72:
+            steps.append({'do': 'set', 'on': on, 'row': rng.randrange(20), 'field': rng.choice(fields + ['z']), 'value': rng.choice(HIST_SET_VALUES), 'via': via})
+        elif r < 0.8:
+            steps.append({'do': 'delete', 'on': on, 'row': rng.randrange(20), 'field': rng.choice(fields), 'via': via})
+        elif r < 0.9:
+            steps.append({'do': rng.choice(['push', 'pop', 'setrow']), 'on': on, 'row': rng.randrange(20), 'via': via})
+        else:
+            steps.append({'do': 'sort', 'on': on, 'field': rng.choice(fields), 'via': via})
+    # every history ends with another read of the first text
+    steps.append({'do': 'parse', 'text': 0, 'how': rng.choice(['same', 'same', 'copy', 'lines', 'whole']), 'via': rng.choice(['direct', 'script'])})
+    return {'csvhistory': steps, 'texts': texts, 'off': off}
+
+
+def csv_reference(chunks, off):
+    """the typed table the reference reading gives for the chunk arguments (enc form), 'TypeError' when a cell does not convert, None when the
+    text is outside the reference (duplicate column names, surplus cells)"""
+    header, recs = split_cells({'chunks': chunks})
+    if header is None:
+        return []
+    if len(set(header)) != len(header) or any(len(r) != len(header) for r in recs):
+        return None
+    want = ref_parse_csv(header, recs, off)
+    return 'TypeError' if want is None else enc_table(want)
+
+
+def run_csv_history(hist):
+    """-> (step index, oracle, expected, actual) of the first failing step, or None"""
+    off = hist['off']
+    live = []               # [result, expected enc, updated in place?, index of the parse step]
+    for i, step in enumerate(hist['csvhistory']):
+        if step['do'] == 'parse':
+            chunks = chunks_variant(hist['texts'][step['text']], step['how'])
+            if step['how'] == 'hstr':
+                chunks = [c if c is None else HStr(c) for c in chunks]
+            want = csv_reference([c if c is None else str.__str__(c) for c in chunks], off)
+            status, res = call_lib('dataParseCSV', chunks, step['via'])
+            if want is None:
+                continue
+            got = enc_table(res) if status == 'ok' and isinstance(res, list) else (res if status == 'raised' else enc(res))
+            if want == 'TypeError' and step['via'] != 'direct' and status == 'ok' and res is None:
+                got = 'TypeError'               # a failing library function called from a script / an expression gives null
+            if got != want:
+                return i, 'csv-history-read-gives-written-values', want, got
+            if isinstance(res, list):
+                live.append([res, want, False, i])
+        elif live:
+            entry = live[step['on'] % len(live)]
+            table = entry[0]
+            entry[2] = True
+            row = table[step['row'] % len(table)] if table and 'row' in step else None
+            if step['do'] == 'calc':
+                call_lib('dataCalculatedField', [table, step['field'], step['expr']], step['via'])
+            elif step['do'] == 'set' and row is not None:
+                call_lib('objectSet', [row, step['field'], build(step['value'])], step['via'])
+            elif step['do'] == 'delete' and row is not None:
+                call_lib('objectDelete', [row, step['field']], step['via'])
+            elif step['do'] == 'push':
+                call_lib('arrayPush', [table, {'pushed': 1}], step['via'])
+            elif step['do'] == 'pop' and table:
+                call_lib('arrayPop', [table], step['via'])
+            elif step['do'] == 'setrow' and table:
+                call_lib('arraySet', [table, step['row'] % len(table), {'replaced': True}], step['via'])
+            elif step['do'] == 'sort':
+                call_lib('dataSort', [table, [[step['field'], True]]], step['via'])
+        # every result that was not itself updated still holds the written values
+        for res, want, updated, at in live:
+            if not updated and enc_table(res) != want:
+                return i, 'csv-history-results-are-independent', {'result of step': at, 'rows': want}, enc_table(res)
+    return None
+
+
+def csv_history_witness(ctx, hist, bad):
+    """report a failing history: cut after the failing step, then drop every earlier step the failure does not need"""
+    i, oracle, want, got = bad
+    steps = list(hist['csvhistory'][:i + 1])
+    if len(ctx.witnesses) < 10:
+        j = 1
+        while j < len(steps) - 1:
+            shorter = steps[:j] + steps[j + 1:]
+            again = run_csv_history(dict(hist, csvhistory=shorter))
+            if again is not None and again[1] == oracle and again[0] == len(shorter) - 1:
+                steps, want, got = shorter, again[2], again[3]
+            else:
+                j += 1
+    ctx.witness(oracle, dict(hist, csvhistory=steps), fw.shorten(want, 3000), fw.shorten(got, 3000), step=len(steps) - 1)
+
+
+def stream_csvhist(ctx):
+    st = ctx.stream('csvhist', 'histories of 4-8 steps around dataParseCSV in ONE process: the same CSV text (typed tables of 1-17, 4% of 64-129 records from the csvscale '
+                               'generator) is read 2-6 times - the very same str objects, equal copies, the same lines cut into a chunk per line / joined into '
+                               'one text, str-subclass copies, via the library function, a script or an expression - and between the reads the rows / the '
+                               'array of an earlier result are updated IN PLACE (dataCalculatedField, objectSet, objectDelete, arrayPush / arrayPop / arraySet, '
+                               'dataSort) and other texts with the same header (the data lines rotated) are read; every history ends with another read of the '
+                               'first text. Oracles (implementation side; the Lean model is a function of the text and has no history): every read gives the '
+                               'reference typing of its text, and every result that was not itself updated still does after every later step (results of '
+                               'separate reads share neither rows nor the array); non-trivial = an in-place update lies between two reads of one text')
+
+    def body():
+        off = local_offset()
+        rng = ctx.rng('csvhist')
+        for _ in range(ctx.scale(1500, 15000)):
+            hist = gen_csv_history(rng, off)
+            steps = hist['csvhistory']
+            kinds = [s['do'] for s in steps]
+            first_update = next((k for k, d in enumerate(kinds) if d != 'parse'), None)
+            st.case(hist, nontrivial=first_update is not None,
+                    tags=['steps%d' % len(steps), 'reads%d' % kinds.count('parse')] + sorted({'do-' + d for d in kinds})
+                    + sorted({'read-' + s['how'] for s in steps if s['do'] == 'parse'}) + sorted({'via-' + s['via'] for s in steps}))
+            bad = run_csv_history(hist)
+            if bad:
+                csv_history_witness(ctx, hist, bad)
+    with_zone('UTC', body)
+
+
 def streams(ctx):
+    with_zone('UTC', lambda: stream_csvhist(ctx))  # first: a history-dependent dataParseCSV (bounded cache, warm-up) must meet it in a fresh process
     stream_key(ctx)
     stream_hostkey(ctx)
+    stream_scale(ctx)
+    stream_csvscale(ctx)
     stream_data(ctx)
     stream_host(ctx)
     stream_reuse(ctx)
@@ -2362,6 +2833,8 @@ def search(ctx):
     cases = [c for c in load_corpus() if c.get('op') != 'csv' and c.get('stream') != 'host']
     for _ in range(ctx.scale(6000, 80000)):
         cases.append(gen_case(rng))
+    for _ in range(ctx.scale(1, 4)):
+        cases.extend(c for _, c in scale_cases(ctx, rng))           # the row-count axis
     for case in cases:
         run = run_case_with_ids(case)
         bad = oracles(case, run)
@@ -2374,7 +2847,14 @@ def search(ctx):
         off = local_offset()
         rng2 = ctx.rng('search-csv')
         st = fw.StreamStats('search-csv', '')
-        for c in csv_fixed_cases(off) + [gen_csv_case(rng2, off) for _ in range(ctx.scale(3000, 40000))]:
+        for _ in range(ctx.scale(1500, 15000)):                     # histories first (they want a process that has read little)
+            hist = gen_csv_history(rng2, off)
+            bad = run_csv_history(hist)
+            if bad:
+                csv_history_witness(ctx, hist, bad)
+                return
+        scale = [gen_csv_scale_case(rng2, off, n) for n in SCALE for _ in range(ctx.scale(12, 80))]
+        for c in csv_fixed_cases(off) + scale + [gen_csv_case(rng2, off) for _ in range(ctx.scale(3000, 40000))]:
             header, recs = split_cells(c)
             check_csv_case(ctx, st, c, None, header, recs)
             if ctx.witnesses:
@@ -2388,6 +2868,12 @@ def replay(witness):
         if isinstance(inp, dict):       # host key pool: a pair of specs and the zone it was found in
             return with_zone(inp.get('tz', 'UTC'), lambda: key_pair_fails(build(inp['pair'][0]), build(inp['pair'][1])) is not None)
         return key_pair_fails(build(inp[0]), build(inp[1])) is not None
+    if isinstance(inp, dict) and 'csvhistory' in inp:
+        def csv_history_body():
+            # either oracle says the same thing (a read does not give the written values); which one fires first depends on what the process
+            # has read before
+            return run_csv_history(inp) is not None
+        return with_zone('UTC', csv_history_body)
     if isinstance(inp, dict) and 'history' in inp:
         def history_body():
             bad = run_history(inp)
@@ -2448,3 +2934,9 @@ def replay(witness):
 from props import c19x as _ext  # noqa: E402  pylint: disable=wrong-import-position
 _ext.EXTRA_ROOTS = ['Drv.C19X']
 fw.attach_extension(globals(), _ext)
+
+
+# extension: the data functions evaluate their expression TEXT with the modelled parser and machine (DESIGN 13.9)
+from props import c19y as _ext_y  # noqa: E402  pylint: disable=wrong-import-position
+_ext_y.EXTRA_ROOTS = ['Drv.C19Y']
+fw.attach_extension(globals(), _ext_y)
